@@ -109,6 +109,9 @@ class CloseHooks(LatchHooks):
         super().__init__()
         self.table = {}
 
+    def precise_arith(self, path):
+        return True         # every input of qmail_close is concrete here; a loop over a table of exit codes has a concrete counter
+
     def prim_wait_pid(self, E, x, args):
         wp = None
         if args[0] is not TOP and len(args[0]) == 1:
@@ -463,7 +466,7 @@ def run(ctx):
     H2 = CloseHooks()
     for init in (0, 1):
         H2.fn = 'qmail_close'
-        eng = Engine(db, prog, H2)
+        eng = Engine(db, prog, H2, max_states=4000000)
         fid = eng.frame_id(qc)
         eng.run(qc, {'%s::%s' % (fid, qc.params[0]): fs(('&', 'OBJ')), 'OBJ.flagerr': fs(init), 'OBJ.pid': fs('PID'), '$bind': fs('fde'), '$init': fs(init)})
         rep.count_states(eng.states, eng.transitions)
